@@ -44,6 +44,10 @@ pub open spec fn delimiter_tag_of(n: int) -> Option<DelimiterTag> {
     else { None }
 }
 
+/// derive(PartialEq) on a field-less enum compares the variants (derive output is not re-verified).
+pub assume_specification[ <DelimiterTag as PartialEq>::eq ](a: &DelimiterTag, b: &DelimiterTag) -> (r: bool)
+    ensures r == (*a == *b);
+
 /// RFC 8011 Appendix B status codes, by symbol name.
 pub open spec fn status_code_of(n: int) -> Option<StatusCode> {
     if n == 0x0000 { Some(StatusCode::SuccessfulOk) }
